@@ -272,6 +272,11 @@ def rule_file(ctx, R):
     cfg = normal_cfg(b)
     ps = [(bi, roles.of_operand(t["args"][0], bi)) for bi, t in b.calls() if callee_name(t["f"], fb) == "hyeong::core::parse::parse"]
     oks = sorted({roles.of_origin(roles.org.of_rvalue(st["r"], bi, si)) for bi, blk in enumerate(b.blocks) if not blk["cleanup"] for si, st in enumerate(blk["stmts"]) if st["k"] == "assign" and st["p"]["l"] == 0 and not st["p"]["proj"] and st["r"]["k"] == "agg" and st["r"].get("variant") == "Ok"})
+    # ... and the text is not changed in place on the way (no mutable borrow of the string that is parsed)
+    vs = Vars(b)
+    keys = {vs.root_key(t["args"][0]) for bi, t in b.calls() if callee_name(t["f"], fb) == "hyeong::core::parse::parse"}
+    mut_borrows = [st["span"]["at"] for blk in b.blocks if not blk["cleanup"] for st in blk["stmts"] if st["k"] == "assign" and st["r"]["k"] == "ref" and st["r"].get("mut") and vs._root_place(st["r"]["p"], 0) in keys]
+    R.check(not mut_borrows, "file:not_edited", "the text read from the file is not edited before it is parsed (no mutable borrow of it): %s" % mut_borrows, b.span)
     R.check(len(ps) == 1 and ps[0][1] == "TRY(io::read_file(PATH))" and oks == ["Result::Ok{parse::parse(TRY(io::read_file(PATH)))}"], "file:as_it_is", "parse_file parses exactly the text read from the file and returns exactly the parsed commands: parse(%s) -> %s" % ([p_[1] for p_ in ps], [o[:80] for o in oks]), b.span)
     rf = fb.bodies.get("hyeong::util::io::read_file")
     if R.anchor(rf is not None, "read_file", "io::read_file"):
